@@ -24,3 +24,7 @@ s_harness! { fn c14_shape_2() { shape_2::<{ CHK_MONITOR | CHK_SIZES }>() } }
 s_harness! { fn c14_shape_3() { shape_3::<{ CHK_MONITOR | CHK_SIZES }>() } }
 s_harness! { fn c14_shape_4() { shape_4::<{ CHK_MONITOR | CHK_SIZES }>() } }
 s_harness! { fn c14_shape_5() { shape_5::<{ CHK_MONITOR | CHK_SIZES }>() } }
+
+s_harness! { fn c01_shape_6() { shape_6::<CHK_READS>() } }
+s_harness! { fn c19_shape_6() { shape_6::<CHK_STATS>() } }
+s_harness! { fn c14_shape_6() { shape_6::<{ CHK_MONITOR | CHK_SIZES }>() } }
